@@ -17,6 +17,7 @@ Variants rejected by TLC: FillSeq_forward.cfg, FillSeq_perflow.cfg, Adapters_for
 import random
 
 from .. import core
+from .. import filledge as fe
 from .. import filllib as fl
 from .. import flowlib
 from ..util import exc_name
@@ -593,6 +594,13 @@ def _replay_chains(items):
     return col.counts(), mini.fails
 
 
+def _replay_edges(items):
+    col, mini = fl.Collector(), Minimal(None)
+    for k, rec in items:
+        fe.replay(col, mini, rec, k)
+    return col.counts(), mini.fails
+
+
 def _replay_adapters(recs):
     col, mini = fl.Collector(), Minimal(None)
     for rec in recs:
@@ -632,7 +640,13 @@ def run(ctx):
         ("FillSeq", "FillSeq_perflow.cfg", "shared_description_variant_rejected_by",
          "FillSeq.tla accepts a Variable that shares one description between the values of a flow"),
         ("Adapters", "Adapters_forward.cfg", "forwarding_adapter_rejected_by",
-         "Adapters.tla accepts an adapter object that forwards the methods of the wrapped element"))
+         "Adapters.tla accepts an adapter object that forwards the methods of the wrapped element"),
+        # a fill side that selects only on the object True while the run side goes by the truth value
+        ("FillEdge", "FillEdge_identity.cfg", "identity_selection_variant_rejected_by",
+         "FillEdge.tla accepts a fill side that treats truthy non-bool selector results as not selected"),
+        # a run side on which StopIteration raised by a callable ends the flow silently
+        ("FillEdge", "FillEdge_quiet.cfg", "quiet_stop_variant_rejected_by",
+         "FillEdge.tla accepts a run driver that takes an element's StopIteration for the end of the flow"))
     from ..ctxlib import Jobs
     with Jobs(ctx, max_workers=6 if ctx.thorough else 5) as jobs:
         futs = [jobs.submit(ctx.mc, "FillSeq", "FillSeq_%s.cfg" % tag, workers=w_big),
@@ -640,7 +654,12 @@ def run(ctx):
                 # interfaces behind explicit adapters; all drivers
                 jobs.submit(ctx.mc, "FillSeq", "FillSeq_vars%s.cfg" % wide, workers=w_big),
                 # per-action census (vacuity guard) on a small configuration
-                jobs.submit(fl.census, ctx, "FillSeq", "FillSeq_cover.cfg", actions)]
+                jobs.submit(fl.census, ctx, "FillSeq", "FillSeq_cover.cfg", actions),
+                # round 8: kinds of objects a selector returns; elements that raise in the middle of the flow
+                jobs.submit(ctx.mc, "FillEdge", "FillEdge_%s.cfg" % tag, workers=w_big),
+                jobs.submit(fl.census, ctx, "FillEdge", "FillEdge_cover.cfg",
+                            ("RunFeed", "RunEof", "FillValue", "FillCompute", "SplitRead", "SplitFill", "SplitEnd"))]
+        f_edge = jobs.submit(ctx.export, "FillEdge", "FillEdge_%s_export.cfg" % tag, min_records=5000)
         f_recs = [jobs.submit(ctx.export, "FillSeq", "FillSeq_%s_export.cfg" % tag, min_records=1000),
                   jobs.submit(ctx.export, "FillSeq", "FillSeq_vars%s_export.cfg" % wide, min_records=1000)]
         # adapters: one TLC run checks the table and prints it
@@ -668,6 +687,22 @@ def run(ctx):
         fl.merge_counts(ctx, counts)
         mini.merge(fails)
     ctx.sample({"spec_behaviour_chain": recs[len(recs) // 2]})
+
+    # ---- selector result kinds and abnormal endings (FillEdge.tla)
+    erecs = f_edge.result()
+    if not any(r["st"] == "raised" for r in erecs) or not any(fe.nonbool(r["ch"]) for r in erecs):
+        raise core.MachineryError("FillEdge.tla exported no failing chain / no non-bool selector result")
+    for counts, fails in fl.parallel_map(_replay_edges, list(enumerate(erecs)), nproc):
+        fl.merge_counts(ctx, counts)
+        mini.merge(fails)
+    ctx.sample({"spec_behaviour_edge": next(r for r in erecs if r["st"] == "raised" and r["N"] >= 2)})
+    ecol = fl.Collector()
+    etrace = fe.record_random(ecol, random.Random(ctx.seed + 77), 3000 if ctx.thorough else 600)
+    fl.merge_counts(ctx, ecol.counts())
+    ctx.trace_check("Trace_FillEdge", "Trace_FillEdge.cfg", etrace,
+                    lambda r: "%s:%s:%s:%s" % (r["drv"], r["st"], r["exc"], fe.chain_key(r["ch"])))
+    ctx.binding_demo("Trace_FillEdge", "Trace_FillEdge.cfg", etrace,
+                     lambda r: dict(r, st="ok", exc="") if r["st"] == "raised" else None)
 
     # ---- adapters
     table = {}
